@@ -810,7 +810,9 @@ def run(run: core.Run, tier: str):
       run.disagree("analyze_accumulator", {k_: meta[k_] for k_ in ("model", "cls", "shape", "xmin", "xmax", "wlabel")},
                    meta["impl"], mres)
     shape1 = meta["shape"][1]
-    n_out = meta["shape"][-1]
+    # the loop `for i in range(k.shape[1])` with k[..., i], b[i] walks the output channels only when axis 1 is as
+    # long as the last axis and the last axis IS the output-channel axis (never for depthwise kernels)
+    n_out = meta["shape"][-1] if meta["cls"] != "QDepthwiseConv2D" else -1
     rank = len(meta["shape"])
     if "err" in meta["impl"]:
       run.count("est_raises_" + meta["impl"]["err"])
